@@ -55,6 +55,7 @@ type Program struct {
 	disabledAuto map[string]bool
 	extraFrameHeap map[string]bool
 	mu         sync.Mutex
+	cmu        sync.RWMutex
 	assumptions map[string]bool
 	loadErr    []string
 }
@@ -106,7 +107,19 @@ func (P *Program) contractFor(fn *ssa.Function) *Contract {
 	if fn == nil {
 		return nil
 	}
-	return P.contracts[P.relName(fn)]
+	return P.getContract(P.relName(fn))
+}
+
+func (P *Program) getContract(key string) *Contract {
+	P.cmu.RLock()
+	defer P.cmu.RUnlock()
+	return P.contracts[key]
+}
+
+func (P *Program) setContract(key string, c *Contract) {
+	P.cmu.Lock()
+	P.contracts[key] = c
+	P.cmu.Unlock()
 }
 
 func (P *Program) candidateNodePtr() types.Type {
@@ -178,10 +191,10 @@ func loadProgram(repo, verif string) (*Program, error) {
 				}
 				for _, c := range cs {
 					key := c.FuncName
-					if !strings.HasPrefix(key, "invoke ") {
+					if !strings.HasPrefix(key, "invoke ") && !strings.HasPrefix(key, "functype ") {
 						key = pkgShort(p.PkgPath) + c.FuncName
 					}
-					if _, dup := P.contracts[key]; dup {
+					if P.getContract(key) != nil {
 						return P, fmt.Errorf("%s:%d: duplicate contract for %s", c.File, c.Line, key)
 					}
 					P.contracts[key] = c
